@@ -265,7 +265,7 @@ BalancedFrom(sk, i, d) ==
   ELSE BalancedFrom(sk, i + 1, d)
 
 (* forgetting the variants *)
-EraseAtomFlat(a) == [a EXCEPT !.c = IF a.k \in EmphKinds THEN "*" ELSE IF a.k = "br" THEN "\\" ELSE @]
+EraseAtomFlat(a) == [a EXCEPT !.c = IF a.k \in EmphKinds THEN "*" ELSE @]   \* the kind of a hard break is kept: it decides whether a space before it is content
 EraseAtom(a) == [EraseAtomFlat(a) EXCEPT !.body = [i \in DOMAIN a.body |-> EraseAtomFlat(a.body[i])]]
 EraseInl(q) == [i \in DOMAIN q |-> EraseAtom(q[i])]
 RECURSIVE Erase(_)
